@@ -1,25 +1,1965 @@
-//! C14, C18: configuration resolution and file-system frame of the real binary
-use crate::report::CheckResult;
+//! C14, C18: configuration resolution and file-system frame of the real binary.
+//!
+//! C14 = (a) in-process executable contract of the name tables `str_to_*` / `get_all_*` against the
+//!           names scraped (on every run) from the documents, and
+//!       (b) the real `solstat` binary run in scratch working directories over the combinations of
+//!           --path / --toml / toml `path` / ./contracts, observed through hook H1 (VERIF-OPTS line)
+//!           and through the generated report.
+//! C18 = frame contract "a run modifies exactly ./solstat_report.md, by replacement", checked by
+//!       recursive snapshots before/after two consecutive runs of the real binary.
+//!
+//! Replay payloads are small `key=value;key=value` texts (values percent-encoded), parsed here.
+use crate::json::J;
+use crate::report::{CheckResult, Rng};
+use solstat::analyzer::{optimizations as lib_opt, qa as lib_qa, vulnerabilities as lib_vul};
+use std::collections::{BTreeMap, BTreeSet};
+use std::fs;
+use std::os::unix::fs::{MetadataExt, PermissionsExt};
+use std::path::{Path, PathBuf};
+use std::process::{Command, Stdio};
+use std::sync::atomic::{AtomicUsize, Ordering};
 
-/// Returns Some(exit code) when `cmd` belongs to this module.
-pub fn dispatch(cmd: &str, rest: &[String], tier: &str, seed: u64) -> Option<i32> {
-    let _ = (rest, tier, seed);
-    match cmd {
-        "c14" => {
-            println!("{}", todo("c14").to_json().render());
-            Some(0)
+const REPORT: &str = "solstat_report.md";
+
+// ------------------------------------------------------------------------------------------------
+// small utilities
+
+fn repo_dir() -> PathBuf {
+    PathBuf::from(std::env::var("VX_REPO").unwrap_or_else(|_| "/repo".to_string()))
+}
+
+/// The binary under test. The check commands require VXN_SOLSTAT_BIN (set by vxlib/checks/bounded.py);
+/// replay commands fall back to (re)building <vxn dir>/../../repo-target/release/solstat because
+/// `vx replay` does not pass the variable.
+fn solstat_bin(replay: bool) -> Option<PathBuf> {
+    if let Ok(p) = std::env::var("VXN_SOLSTAT_BIN") {
+        let p = PathBuf::from(p);
+        if p.is_file() {
+            return Some(p);
         }
-        "c18" => {
-            println!("{}", todo("c18").to_json().render());
-            Some(0)
-        }
-        _ => None,
+    }
+    if !replay {
+        return None;
+    }
+    let exe = std::env::current_exe().ok()?;
+    let build = exe.parent()?.parent()?.parent()?;
+    let target = build.join("repo-target");
+    let flags = std::env::var("RUSTFLAGS").unwrap_or_default();
+    let flags = if flags.contains("solstat_verif") { flags } else { format!("{} --cfg solstat_verif", flags).trim().to_string() };
+    let _ = Command::new("cargo")
+        .args(["build", "--offline", "--release", "--bin", "solstat"])
+        .current_dir(repo_dir())
+        .env("CARGO_TARGET_DIR", &target)
+        .env("RUSTFLAGS", flags)
+        .stdout(Stdio::null())
+        .stderr(Stdio::null())
+        .status();
+    let p = target.join("release").join("solstat");
+    if p.is_file() {
+        Some(p)
+    } else {
+        None
     }
 }
 
-#[allow(dead_code)]
-fn todo(name: &str) -> CheckResult {
-    let mut r = CheckResult::new(name);
-    r.violate("harness:not-implemented", "check not implemented yet", vec![name.to_string()], String::new(), String::new());
+static SCRATCH_N: AtomicUsize = AtomicUsize::new(0);
+
+/// scratch directory `temp_dir()/vxn-<pid>-<n>`, removed on drop
+struct Scratch {
+    root: PathBuf,
+}
+impl Scratch {
+    fn new() -> Scratch {
+        let n = SCRATCH_N.fetch_add(1, Ordering::SeqCst);
+        let base = std::env::temp_dir().join(format!("vxn-{}-{}", std::process::id(), n));
+        let _ = fs::remove_dir_all(&base);
+        fs::create_dir_all(&base).expect("cannot create scratch directory");
+        // canonical: absolute paths handed to the binary must not go through symlinks of the temp dir
+        let root = fs::canonicalize(&base).unwrap_or(base);
+        Scratch { root }
+    }
+    fn p(&self, rel: &str) -> PathBuf {
+        if rel.is_empty() || rel == "." {
+            self.root.clone()
+        } else {
+            self.root.join(rel)
+        }
+    }
+}
+fn make_writable(p: &Path) {
+    if let Ok(md) = fs::symlink_metadata(p) {
+        if md.is_dir() {
+            let _ = fs::set_permissions(p, fs::Permissions::from_mode(0o755));
+            if let Ok(rd) = fs::read_dir(p) {
+                for e in rd.flatten() {
+                    make_writable(&e.path());
+                }
+            }
+        }
+    }
+}
+impl Drop for Scratch {
+    fn drop(&mut self) {
+        make_writable(&self.root);
+        let _ = fs::remove_dir_all(&self.root);
+    }
+}
+
+fn write_file(p: &Path, content: &[u8], mode: u32) {
+    if let Some(d) = p.parent() {
+        fs::create_dir_all(d).expect("mkdir");
+    }
+    fs::write(p, content).expect("write scratch file");
+    fs::set_permissions(p, fs::Permissions::from_mode(mode)).expect("chmod");
+}
+
+struct RunOut {
+    code: Option<i32>,
+    timed_out: bool,
+    stderr: String,
+    stdout: String,
+}
+impl RunOut {
+    fn ok(&self) -> bool {
+        self.code == Some(0)
+    }
+    fn status(&self) -> String {
+        if self.timed_out {
+            "timeout (killed)".to_string()
+        } else {
+            match self.code {
+                Some(c) => format!("exit status {}", c),
+                None => "killed by a signal".to_string(),
+            }
+        }
+    }
+    fn err_tail(&self) -> String {
+        let t: Vec<&str> = self.stderr.lines().filter(|l| !l.starts_with("VERIF-OPTS")).collect();
+        let s = t.join(" / ");
+        if s.len() > 300 {
+            let mut cut = 300;
+            while !s.is_char_boundary(cut) {
+                cut -= 1;
+            }
+            s[..cut].to_string()
+        } else {
+            s
+        }
+    }
+}
+
+/// run the real binary; stdout/stderr go to files in `io` (outside every snapshotted directory)
+fn run_bin(bin: &Path, cwd: &Path, args: &[String], io: &Path) -> RunOut {
+    fs::create_dir_all(io).expect("mkdir io");
+    let errp = io.join("stderr.txt");
+    let outp = io.join("stdout.txt");
+    let errf = fs::File::create(&errp).expect("stderr file");
+    let outf = fs::File::create(&outp).expect("stdout file");
+    let child = Command::new(bin)
+        .args(args)
+        .current_dir(cwd)
+        .env("SOLSTAT_VERIF_DUMP_OPTS", "1")
+        .env("RUST_BACKTRACE", "0")
+        .stdin(Stdio::null())
+        .stdout(Stdio::from(outf))
+        .stderr(Stdio::from(errf))
+        .spawn();
+    let mut child = match child {
+        Ok(c) => c,
+        Err(e) => return RunOut { code: None, timed_out: false, stderr: format!("cannot spawn {:?}: {}", bin, e), stdout: String::new() },
+    };
+    let t0 = std::time::Instant::now();
+    let mut timed_out = false;
+    let code = loop {
+        match child.try_wait() {
+            Ok(Some(st)) => break st.code(),
+            Ok(None) => {
+                if t0.elapsed().as_secs() >= 60 {
+                    let _ = child.kill();
+                    let _ = child.wait();
+                    timed_out = true;
+                    break None;
+                }
+                std::thread::sleep(std::time::Duration::from_micros(500));
+            }
+            Err(_) => break None,
+        }
+    };
+    let stderr = String::from_utf8_lossy(&fs::read(&errp).unwrap_or_default()).to_string();
+    let stdout = String::from_utf8_lossy(&fs::read(&outp).unwrap_or_default()).to_string();
+    RunOut { code, timed_out, stderr, stdout }
+}
+
+fn fnv64(data: &[u8]) -> u64 {
+    let mut h: u64 = 0xcbf29ce484222325;
+    for b in data {
+        h ^= *b as u64;
+        h = h.wrapping_mul(0x100000001b3);
+    }
+    h
+}
+
+#[derive(Clone, Debug, PartialEq, Eq)]
+struct Entry {
+    kind: char, // f file, d directory, l symlink, o other
+    size: u64,
+    mode: u32,
+    hash: u64,
+    mtime: (i64, i64),
+}
+type Snap = BTreeMap<String, Entry>;
+
+/// recursive snapshot of `root` (relative paths); the top-level entry `skip` is left out
+fn snapshot(root: &Path, skip: &str) -> Snap {
+    fn go(dir: &Path, rel: &str, skip: &str, out: &mut Snap) {
+        let rd = match fs::read_dir(dir) {
+            Ok(r) => r,
+            Err(_) => return,
+        };
+        for e in rd.flatten() {
+            let name = e.file_name().to_string_lossy().to_string();
+            if rel.is_empty() && name == skip {
+                continue;
+            }
+            let r = if rel.is_empty() { name.clone() } else { format!("{}/{}", rel, name) };
+            let p = e.path();
+            let md = match fs::symlink_metadata(&p) {
+                Ok(m) => m,
+                Err(_) => continue,
+            };
+            let ft = md.file_type();
+            let mode = md.permissions().mode() & 0o7777;
+            if ft.is_symlink() {
+                let t = fs::read_link(&p).map(|t| t.to_string_lossy().to_string()).unwrap_or_default();
+                out.insert(r, Entry { kind: 'l', size: t.len() as u64, mode: 0, hash: fnv64(t.as_bytes()), mtime: (0, 0) });
+            } else if ft.is_dir() {
+                out.insert(r.clone(), Entry { kind: 'd', size: 0, mode, hash: 0, mtime: (0, 0) });
+                go(&p, &r, skip, out);
+            } else if ft.is_file() {
+                let data = fs::read(&p).unwrap_or_default();
+                out.insert(r, Entry { kind: 'f', size: md.len(), mode, hash: fnv64(&data), mtime: (md.mtime(), md.mtime_nsec()) });
+            } else {
+                out.insert(r, Entry { kind: 'o', size: 0, mode, hash: 0, mtime: (0, 0) });
+            }
+        }
+    }
+    let mut s = Snap::new();
+    go(root, "", skip, &mut s);
+    s
+}
+
+#[derive(Debug, PartialEq, Eq)]
+enum Change {
+    Created,
+    Deleted,
+    Content,
+    TypeOrMode,
+    Touched,
+}
+fn diff_snap(a: &Snap, b: &Snap) -> Vec<(String, Change)> {
+    let mut d = vec![];
+    for (k, ea) in a {
+        match b.get(k) {
+            None => d.push((k.clone(), Change::Deleted)),
+            Some(eb) => {
+                if ea.kind != eb.kind || ea.mode != eb.mode {
+                    d.push((k.clone(), Change::TypeOrMode));
+                } else if ea.size != eb.size || ea.hash != eb.hash {
+                    d.push((k.clone(), Change::Content));
+                } else if ea.mtime != eb.mtime {
+                    d.push((k.clone(), Change::Touched));
+                }
+            }
+        }
+    }
+    for k in b.keys() {
+        if !a.contains_key(k) {
+            d.push((k.clone(), Change::Created));
+        }
+    }
+    d
+}
+
+fn pct_enc(s: &str) -> String {
+    let mut o = String::new();
+    for b in s.bytes() {
+        if b.is_ascii_alphanumeric() || b == b'_' || b == b'.' || b == b'/' || b == b'-' || b == b'@' {
+            o.push(b as char);
+        } else {
+            o.push_str(&format!("%{:02X}", b));
+        }
+    }
+    o
+}
+fn pct_dec(s: &str) -> String {
+    let b = s.as_bytes();
+    let mut o = vec![];
+    let mut i = 0;
+    while i < b.len() {
+        if b[i] == b'%' && i + 3 <= b.len() && s.is_char_boundary(i + 1) && s.is_char_boundary(i + 3) {
+            if let Ok(v) = u8::from_str_radix(&s[i + 1..i + 3], 16) {
+                o.push(v);
+                i += 3;
+                continue;
+            }
+        }
+        o.push(b[i]);
+        i += 1;
+    }
+    String::from_utf8_lossy(&o).to_string()
+}
+/// "a=1;b=x%20y" -> map (values decoded)
+fn parse_kv(s: &str) -> BTreeMap<String, String> {
+    let mut m = BTreeMap::new();
+    for part in s.trim().split(';') {
+        if let Some((k, v)) = part.split_once('=') {
+            m.insert(k.trim().to_string(), pct_dec(v.trim()));
+        }
+    }
+    m
+}
+fn enc_list(v: &[String]) -> String {
+    v.iter().map(|s| if s.is_empty() { "%".to_string() } else { pct_enc(s) }).collect::<Vec<_>>().join(",")
+}
+/// the list payload is split BEFORE decoding (a comma inside a name is encoded as %2C); "" = empty list,
+/// an empty *name* is encoded as "%"
+fn dec_list(raw: &str) -> Vec<String> {
+    if raw.is_empty() {
+        return vec![];
+    }
+    raw.split(',').map(|x| if x == "%" { String::new() } else { pct_dec(x) }).collect()
+}
+/// like parse_kv but keeps the values raw (for list values)
+fn parse_kv_raw(s: &str) -> BTreeMap<String, String> {
+    let mut m = BTreeMap::new();
+    for part in s.trim().split(';') {
+        if let Some((k, v)) = part.split_once('=') {
+            m.insert(k.trim().to_string(), v.trim().to_string());
+        }
+    }
+    m
+}
+
+/// (key, what, expected, actual) of a violated contract clause
+type Viol = (String, String, String, String);
+
+fn silence_panics<T>(f: impl FnOnce() -> T) -> T {
+    let old = std::panic::take_hook();
+    std::panic::set_hook(Box::new(|_| {}));
+    let r = f();
+    std::panic::set_hook(old);
     r
+}
+
+// ------------------------------------------------------------------------------------------------
+// C14 (a): the name tables
+
+#[derive(Clone, Copy, PartialEq, Eq, PartialOrd, Ord, Debug)]
+enum Cat {
+    Opt,
+    Vul,
+    Qa,
+}
+const CATS: [Cat; 3] = [Cat::Opt, Cat::Vul, Cat::Qa];
+impl Cat {
+    fn tag(self) -> &'static str {
+        match self {
+            Cat::Opt => "opt",
+            Cat::Vul => "vuln",
+            Cat::Qa => "qa",
+        }
+    }
+    fn from_tag(t: &str) -> Option<Cat> {
+        CATS.iter().cloned().find(|c| c.tag() == t)
+    }
+    fn toml_key(self) -> &'static str {
+        match self {
+            Cat::Opt => "optimizations",
+            Cat::Vul => "vulnerabilities",
+            Cat::Qa => "qa",
+        }
+    }
+    fn doc(self) -> &'static str {
+        match self {
+            Cat::Opt => "docs/identified-optimizations.md",
+            Cat::Vul => "docs/identified-vulnerabilities.md",
+            Cat::Qa => "docs/identified-quality-assurance.md",
+        }
+    }
+    fn func(self) -> &'static str {
+        match self {
+            Cat::Opt => "str_to_optimization",
+            Cat::Vul => "str_to_vulnerability",
+            Cat::Qa => "str_to_qa",
+        }
+    }
+}
+
+/// the real name table: Debug name of the selected variant, None when the function panics (= rejects)
+fn resolve(cat: Cat, name: &str) -> Option<String> {
+    let n = name.to_string();
+    std::panic::catch_unwind(move || match cat {
+        Cat::Opt => format!("{:?}", lib_opt::str_to_optimization(&n)),
+        Cat::Vul => format!("{:?}", lib_vul::str_to_vulnerability(&n)),
+        Cat::Qa => format!("{:?}", lib_qa::str_to_qa(&n)),
+    })
+    .ok()
+}
+/// the real default list (Debug names)
+fn defaults(cat: Cat) -> Vec<String> {
+    match cat {
+        Cat::Opt => lib_opt::get_all_optimizations().iter().map(|v| format!("{:?}", v)).collect(),
+        Cat::Vul => lib_vul::get_all_vulnerabilities().iter().map(|v| format!("{:?}", v)).collect(),
+        Cat::Qa => lib_qa::get_all_qa().iter().map(|v| format!("{:?}", v)).collect(),
+    }
+}
+
+fn norm(name: &str) -> String {
+    name.to_lowercase().replace('_', "")
+}
+/// spelling exceptions between a documented name and the enum variant it denotes (minimal, explicit):
+/// the enum misspells "variables" in ImmutableVarialbes.
+/// and docs/identified-optimizations.md calls StringErrors `string_error` (singular).
+const SPELLING_EXCEPTIONS: [(&str, &str); 2] = [("immutablevariables", "ImmutableVarialbes"), ("stringerror", "StringErrors")];
+fn corresponds(name: &str, variant: &str) -> bool {
+    let n = norm(name);
+    variant.to_lowercase() == n || SPELLING_EXCEPTIONS.iter().any(|(a, b)| *a == n && *b == variant)
+}
+
+/// first cells of the markdown table rows (header and separator rows dropped)
+fn scrape_table(text: &str) -> Vec<String> {
+    let lines: Vec<&str> = text.lines().collect();
+    let is_sep = |l: &str| {
+        let t = l.trim();
+        t.starts_with('|') && t.contains("---") && t.chars().all(|c| c == '|' || c == '-' || c == ':' || c == ' ')
+    };
+    let mut out = vec![];
+    for (i, l) in lines.iter().enumerate() {
+        let t = l.trim();
+        if !t.starts_with('|') || is_sep(t) {
+            continue;
+        }
+        if i + 1 < lines.len() && is_sep(lines[i + 1]) {
+            continue; // header row
+        }
+        let cell = t[1..].split('|').next().unwrap_or("").trim().trim_matches('`').trim().to_string();
+        out.push(cell);
+    }
+    out
+}
+
+/// string elements of `key = [ ... ]` arrays (possibly spanning lines) in toml-like text; comments skipped
+fn scrape_arrays(text: &str) -> Vec<(Cat, String)> {
+    let mut out = vec![];
+    let mut cleaned = String::new();
+    for l in text.lines() {
+        if l.trim_start().starts_with('#') {
+            cleaned.push('\n');
+            continue;
+        }
+        cleaned.push_str(l);
+        cleaned.push('\n');
+    }
+    for cat in CATS {
+        let key = cat.toml_key();
+        let mut from = 0;
+        while let Some(pos) = cleaned[from..].find(key) {
+            let start = from + pos;
+            from = start + key.len();
+            let line_start = cleaned[..start].rfind('\n').map(|x| x + 1).unwrap_or(0);
+            if !cleaned[line_start..start].trim().is_empty() {
+                continue; // key must start its line
+            }
+            let rest = &cleaned[from..];
+            let r = rest.trim_start();
+            if !r.starts_with('=') {
+                continue;
+            }
+            let r = r[1..].trim_start();
+            if !r.starts_with('[') {
+                continue;
+            }
+            let end = match r.find(']') {
+                Some(e) => e,
+                None => continue,
+            };
+            let body = &r[1..end];
+            let mut chars = body.chars().peekable();
+            while let Some(c) = chars.next() {
+                if c == '"' || c == '\'' {
+                    let mut s = String::new();
+                    for d in chars.by_ref() {
+                        if d == c {
+                            break;
+                        }
+                        s.push(d);
+                    }
+                    out.push((cat, s));
+                }
+            }
+        }
+    }
+    out
+}
+
+/// text inside ``` fences of a markdown document
+fn fenced_blocks(text: &str) -> String {
+    let mut inside = false;
+    let mut o = String::new();
+    for l in text.lines() {
+        if l.trim_start().starts_with("```") {
+            inside = !inside;
+            continue;
+        }
+        if inside {
+            o.push_str(l);
+            o.push('\n');
+        }
+    }
+    o
+}
+
+struct Documented {
+    /// per category: name as written (deduplicated by lower-case form) -> sources
+    names: BTreeMap<Cat, BTreeMap<String, Vec<String>>>,
+    /// the arrays of the sample Solstat.toml, in file order
+    sample_toml: BTreeMap<Cat, Vec<String>>,
+    per_source: Vec<(String, usize)>,
+    missing: Vec<String>,
+}
+
+fn scrape_documents() -> Documented {
+    let repo = repo_dir();
+    let mut d = Documented { names: BTreeMap::new(), sample_toml: BTreeMap::new(), per_source: vec![], missing: vec![] };
+    for c in CATS {
+        d.names.insert(c, BTreeMap::new());
+        d.sample_toml.insert(c, vec![]);
+    }
+    fn add(d: &mut Documented, c: Cat, name: &str, src: &str) {
+        let m = d.names.get_mut(&c).unwrap();
+        let existing = m.keys().find(|k| k.to_lowercase() == name.to_lowercase()).cloned();
+        let k = existing.unwrap_or_else(|| name.to_string());
+        let e = m.entry(k).or_default();
+        if !e.contains(&src.to_string()) {
+            e.push(src.to_string());
+        }
+    }
+    for c in CATS {
+        match fs::read_to_string(repo.join(c.doc())) {
+            Ok(t) => {
+                let rows = scrape_table(&t);
+                d.per_source.push((c.doc().to_string(), rows.len()));
+                for n in rows {
+                    add(&mut d, c, &n, c.doc());
+                }
+            }
+            Err(_) => d.missing.push(c.doc().to_string()),
+        }
+    }
+    match fs::read_to_string(repo.join("Solstat.toml")) {
+        Ok(t) => {
+            let v = scrape_arrays(&t);
+            d.per_source.push(("Solstat.toml".to_string(), v.len()));
+            for (c, n) in v {
+                add(&mut d, c, &n, "Solstat.toml");
+                d.sample_toml.get_mut(&c).unwrap().push(n);
+            }
+        }
+        Err(_) => d.missing.push("Solstat.toml".to_string()),
+    }
+    match fs::read_to_string(repo.join("README.md")) {
+        Ok(t) => {
+            let v = scrape_arrays(&fenced_blocks(&t));
+            d.per_source.push(("README.md (toml example)".to_string(), v.len()));
+            for (c, n) in v {
+                add(&mut d, c, &n, "README.md");
+            }
+        }
+        Err(_) => d.missing.push("README.md".to_string()),
+    }
+    d
+}
+
+fn apply_case(name: &str, mask: &dyn Fn(usize) -> bool) -> String {
+    let mut i = 0;
+    name.chars()
+        .map(|c| {
+            if c.is_alphabetic() {
+                let up = mask(i);
+                i += 1;
+                if up {
+                    c.to_uppercase().next().unwrap_or(c)
+                } else {
+                    c.to_lowercase().next().unwrap_or(c)
+                }
+            } else {
+                c
+            }
+        })
+        .collect()
+}
+fn title_words(name: &str) -> String {
+    let mut start = true;
+    name.chars()
+        .map(|c| {
+            let r = if start { c.to_uppercase().next().unwrap_or(c) } else { c.to_lowercase().next().unwrap_or(c) };
+            start = c == '_';
+            r
+        })
+        .collect()
+}
+
+/// fixed casings + `budget` more (all 2^L casings when that is not more than the budget, else seeded random)
+fn casings(name: &str, budget: usize, rng: &mut Rng) -> (Vec<String>, bool) {
+    let letters = name.chars().filter(|c| c.is_alphabetic()).count();
+    let mut v = vec![
+        name.to_string(),
+        apply_case(name, &|_| false),
+        apply_case(name, &|_| true),
+        apply_case(name, &|i| i == 0),
+        title_words(name),
+        apply_case(name, &|i| i % 2 == 1),
+        apply_case(name, &|i| i % 2 == 0),
+    ];
+    let mut all = false;
+    if letters < 20 && (1usize << letters) <= budget {
+        all = true;
+        for m in 0..(1usize << letters) {
+            v.push(apply_case(name, &|i| (m >> i) & 1 == 1));
+        }
+    } else {
+        for _ in 0..budget {
+            let bits: Vec<bool> = (0..letters).map(|_| rng.below(2) == 1).collect();
+            v.push(apply_case(name, &|i| bits[i]));
+        }
+    }
+    let mut seen = BTreeSet::new();
+    v.retain(|s| seen.insert(s.clone()));
+    (v, all)
+}
+
+/// contract of ONE documented name in ONE spelling: accepted, and selects the corresponding variant
+fn check_name(cat: Cat, documented: &str, spelling: &str) -> Option<Viol> {
+    let lower = resolve(cat, &documented.to_lowercase());
+    match resolve(cat, spelling) {
+        None => {
+            if lower.is_some() {
+                Some((
+                    format!("c14:name-case-sensitive:{}", documented.to_lowercase()),
+                    format!("{} accepts {:?} but rejects the casing {:?}", cat.func(), documented.to_lowercase(), spelling),
+                    "accepted regardless of letter case".into(),
+                    "panic (name rejected)".into(),
+                ))
+            } else {
+                Some((
+                    format!("c14:documented-name-rejected:{}", documented.to_lowercase()),
+                    format!("the documented {} name {:?} is rejected by {} (tried as {:?})", cat.tag(), documented, cat.func(), spelling),
+                    "every documented name is accepted".into(),
+                    "panic (name rejected)".into(),
+                ))
+            }
+        }
+        Some(v) => {
+            if !corresponds(documented, &v) {
+                Some((
+                    format!("c14:wrong-variant:{}", documented.to_lowercase()),
+                    format!("{}({:?}) selects {} which does not correspond to the name", cat.func(), spelling, v),
+                    format!("the variant whose lower-cased name is {:?}", norm(documented)),
+                    v,
+                ))
+            } else if lower.is_some() && lower.as_ref() != Some(&v) {
+                Some((
+                    format!("c14:case-changes-variant:{}", documented.to_lowercase()),
+                    format!("{}({:?}) selects {} but the lower-case spelling selects {}", cat.func(), spelling, v, lower.clone().unwrap()),
+                    lower.unwrap(),
+                    v,
+                ))
+            } else {
+                None
+            }
+        }
+    }
+}
+
+/// junk / near-miss names of a category: (class, string). None of them is a documented name of `cat`.
+fn junk_names(cat: Cat, doc: &Documented, n_mut: usize, rng: &mut Rng) -> Vec<(String, String)> {
+    let own: BTreeSet<String> = doc.names[&cat].keys().map(|k| k.to_lowercase()).collect();
+    let mut out: Vec<(String, String)> = vec![];
+    for (cl, s) in [("empty", ""), ("whitespace", " "), ("whitespace", "\t"), ("keyword", "all"), ("keyword", "*"), ("keyword", "none"), ("keyword", "default"), ("keyword", "_")] {
+        out.push((cl.to_string(), s.to_string()));
+    }
+    let names: Vec<String> = own.iter().cloned().collect();
+    for n in &names {
+        out.push(("trailing-space".into(), format!("{} ", n)));
+        out.push(("leading-space".into(), format!(" {}", n)));
+        out.push(("trailing-newline".into(), format!("{}\n", n)));
+        out.push(("quoted".into(), format!("\"{}\"", n)));
+        out.push(("prefixed".into(), format!("{}::{}", cat.toml_key(), n)));
+        if n.contains('_') {
+            out.push(("hyphen".into(), n.replace('_', "-")));
+            out.push(("no-underscore".into(), n.replace('_', "")));
+            out.push(("space-for-underscore".into(), n.replace('_', " ")));
+            out.push(("double-underscore".into(), n.replacen('_', "__", 1)));
+        }
+        out.push(("plural-or-extended".into(), format!("{}s", n)));
+        out.push(("extended".into(), format!("{}_", n)));
+        out.push(("extended".into(), format!("_{}", n)));
+        let mut t = n.clone();
+        t.pop();
+        out.push(("truncated".into(), t));
+    }
+    for v in defaults(cat) {
+        out.push(("variant-name".into(), v.clone()));
+    }
+    for other in CATS {
+        if other != cat {
+            for n in doc.names[&other].keys() {
+                out.push(("other-category".into(), n.to_lowercase()));
+            }
+        }
+    }
+    let alphabet: Vec<char> = "abcdefghijklmnopqrstuvwxyz0123456789_-. ".chars().collect();
+    if !names.is_empty() {
+        for _ in 0..n_mut {
+            let mut cs: Vec<char> = rng.pick(&names).chars().collect();
+            match rng.below(4) {
+                0 if cs.len() > 1 => {
+                    let i = rng.below(cs.len());
+                    cs.remove(i);
+                }
+                1 if cs.len() > 1 => {
+                    let i = rng.below(cs.len() - 1);
+                    cs.swap(i, i + 1);
+                }
+                2 => {
+                    let i = rng.below(cs.len() + 1);
+                    cs.insert(i, *rng.pick(&alphabet));
+                }
+                _ => {
+                    let i = rng.below(cs.len());
+                    cs[i] = *rng.pick(&alphabet);
+                }
+            }
+            out.push(("mutation".into(), cs.into_iter().collect()));
+        }
+    }
+    let mut seen = BTreeSet::new();
+    out.retain(|(_, s)| !own.contains(&s.to_lowercase()) && seen.insert(s.clone()));
+    out
+}
+
+fn check_reject(cat: Cat, class: &str, s: &str) -> Option<Viol> {
+    resolve(cat, s).map(|v| {
+        (
+            format!("c14:unknown-name-accepted:{}", class),
+            format!("{}({:?}) accepts a name that is not documented for this category", cat.func(), s),
+            "panic (unknown name rejected)".to_string(),
+            format!("returns {}", v),
+        )
+    })
+}
+
+/// names of the category accepted in lower case -> variant
+fn accepted_map(cat: Cat, doc: &Documented) -> BTreeMap<String, String> {
+    let mut m = BTreeMap::new();
+    for n in doc.names[&cat].keys() {
+        if let Some(v) = resolve(cat, &n.to_lowercase()) {
+            m.insert(n.to_lowercase(), v);
+        }
+    }
+    m
+}
+
+fn check_collide(cat: Cat, a: &str, b: &str) -> Option<Viol> {
+    let (va, vb) = (resolve(cat, a)?, resolve(cat, b)?);
+    if va == vb && a.to_lowercase() != b.to_lowercase() {
+        Some((
+            format!("c14:names-collide:{},{}", a, b),
+            format!("the distinct documented {} names {:?} and {:?} select the same pattern {}", cat.tag(), a, b, va),
+            "distinct documented names select distinct patterns".into(),
+            format!("both select {}", va),
+        ))
+    } else {
+        None
+    }
+}
+
+fn check_reachable(cat: Cat, variant: &str, doc: &Documented) -> Option<Viol> {
+    if !defaults(cat).iter().any(|v| v == variant) {
+        return None;
+    }
+    if accepted_map(cat, doc).values().any(|v| v == variant) {
+        return None;
+    }
+    Some((
+        format!("c14:default-pattern-unreachable:{}", variant),
+        format!("{} runs by default but no documented name selects it", variant),
+        "every pattern that runs by default can be selected by a documented name".into(),
+        format!("documented+accepted names of the category: {:?}", accepted_map(cat, doc).keys().collect::<Vec<_>>()),
+    ))
+}
+
+fn check_in_default(cat: Cat, name: &str) -> Option<Viol> {
+    let v = resolve(cat, name)?;
+    if defaults(cat).contains(&v) {
+        return None;
+    }
+    Some((
+        format!("c14:documented-pattern-not-in-default:{}", v),
+        format!("{:?} selects {} which is missing from the default list (without a configuration file all patterns must run)", name, v),
+        "every documented pattern is in get_all_*".into(),
+        format!("{:?}", defaults(cat)),
+    ))
+}
+
+fn lib_replay(kind: &str, cat: Cat, arg: &str) -> Vec<String> {
+    vec!["c14-case".into(), format!("@src:kind={};cat={};arg={}", kind, cat.tag(), pct_enc(arg))]
+}
+
+fn c14_lib(r: &mut CheckResult, doc: &Documented, tier: &str, rng: &mut Rng) {
+    let budget = if tier == "thorough" { 4096 } else { 256 };
+    let n_mut = if tier == "thorough" { 5000 } else { 300 };
+    let mut exhaustive_names = 0;
+    let mut rejected = 0;
+    for cat in CATS {
+        let names: Vec<String> = doc.names[&cat].keys().cloned().collect();
+        for n in &names {
+            let (cs, all) = casings(n, budget, rng);
+            if all {
+                exhaustive_names += 1;
+            }
+            for s in &cs {
+                r.evaluations += 1;
+                r.nontrivial.insert(format!("name:{}:{}", cat.tag(), s));
+                if let Some((k, w, e, a)) = check_name(cat, n, s) {
+                    r.violate(&k, &w, lib_replay("name", cat, s), e, a);
+                }
+            }
+            r.evaluations += 1;
+            if let Some((k, w, e, a)) = check_in_default(cat, n) {
+                r.violate(&k, &w, lib_replay("indefault", cat, n), e, a);
+            }
+        }
+        let acc = accepted_map(cat, doc);
+        let keys: Vec<&String> = acc.keys().collect();
+        for i in 0..keys.len() {
+            for j in i + 1..keys.len() {
+                r.evaluations += 1;
+                if let Some((k, w, e, a)) = check_collide(cat, keys[i], keys[j]) {
+                    r.violate(&k, &w, lib_replay("collide", cat, &format!("{},{}", keys[i], keys[j])), e, a);
+                }
+            }
+        }
+        for v in defaults(cat) {
+            r.evaluations += 1;
+            if let Some((k, w, e, a)) = check_reachable(cat, &v, doc) {
+                r.violate(&k, &w, lib_replay("reach", cat, &v), e, a);
+            }
+        }
+        for (class, s) in junk_names(cat, doc, n_mut, rng) {
+            r.evaluations += 1;
+            rejected += 1;
+            r.nontrivial.insert(format!("junk:{}:{}", cat.tag(), s));
+            if let Some((k, w, e, a)) = check_reject(cat, &class, &s) {
+                r.violate(&k, &w, lib_replay("reject", cat, &format!("{}|{}", class, s)), e, a);
+            }
+        }
+    }
+    r.extra.push(("names_with_all_casings_enumerated".into(), J::Num(exhaustive_names)));
+    r.extra.push(("junk_names_tried".into(), J::Num(rejected)));
+}
+
+// ------------------------------------------------------------------------------------------------
+// C14 (b): flag / toml / default resolution through the real binary
+
+/// contract with findings for many patterns of all three categories; `lead` comment lines shift every line
+fn probe_sol(contract: &str, lead: usize) -> String {
+    let mut s = String::new();
+    for i in 0..lead {
+        s.push_str(&format!("// filler line {}\n", i));
+    }
+    s.push_str("pragma solidity 0.8.10;\n\ninterface IERC20 {\n    function transfer(address to, uint256 amount) external returns (bool);\n}\n\n");
+    s.push_str(&format!("contract {} {{\n", contract));
+    s.push_str(concat!(
+        "    uint256 private counter;\n",
+        "    address public owner;\n",
+        "    uint256[] public arr;\n",
+        "\n",
+        "    function poke(address token, uint256 amount) external {\n",
+        "        uint256 bal = address(this).balance;\n",
+        "        IERC20(token).transfer(msg.sender, amount);\n",
+        "        counter = bal / 2 * amount;\n",
+        "        require(amount > 0 && bal > 0, \"bad amount\");\n",
+        "        for (uint256 i = 0; i < arr.length; i++) {\n",
+        "            arr[i] = arr[i] + 1;\n",
+        "        }\n",
+        "    }\n",
+        "\n",
+        "    constructor() {\n",
+        "        owner = msg.sender;\n",
+        "    }\n",
+        "\n",
+        "    function _hidden() private view returns (bool) {\n",
+        "        return owner == address(0);\n",
+        "    }\n",
+        "}\n"
+    ));
+    s
+}
+
+/// candidate directories of a C14 working directory: (directory kind, file, leading lines)
+const CANDIDATES: [(&str, &str, usize); 3] = [("contracts", "InDefault.sol", 1), ("tdir", "InToml.sol", 2), ("pdir", "InFlag.sol", 3)];
+
+fn layout_c14(root: &Path, contracts: bool) {
+    write_file(&root.join("Root.sol"), probe_sol("Root", 0).as_bytes(), 0o644);
+    for (dir, file, lead) in CANDIDATES {
+        if dir == "contracts" && !contracts {
+            continue;
+        }
+        let cname = file.trim_end_matches(".sol");
+        write_file(&root.join(dir).join(file), probe_sol(cname, lead).as_bytes(), 0o644);
+    }
+}
+
+/// findings of every single pattern on every candidate directory, computed in-process with the library's
+/// analyze_dir (the detectors are NOT what C14 is about; the selection and the directory are)
+struct Oracle {
+    hits: BTreeMap<(String, String), Vec<String>>, // (directory kind, "cat:Variant") -> ["File.sol:line"]
+    panics: Vec<String>,
+}
+
+fn flatten<K: std::fmt::Debug>(m: std::collections::HashMap<K, Vec<(String, BTreeSet<i32>)>>) -> Vec<String> {
+    let mut v = vec![];
+    for (_, files) in m {
+        for (f, lines) in files {
+            for l in lines {
+                v.push(format!("{}:{}", f, l));
+            }
+        }
+    }
+    v.sort();
+    v
+}
+
+fn build_oracle() -> Oracle {
+    let sc = Scratch::new();
+    layout_c14(&sc.root, true);
+    let mut o = Oracle { hits: BTreeMap::new(), panics: vec![] };
+    for (dir, _, _) in CANDIDATES {
+        let d = sc.p(dir).to_string_lossy().to_string();
+        for v in lib_opt::get_all_optimizations() {
+            let d2 = d.clone();
+            let key = (dir.to_string(), format!("opt:{:?}", v));
+            match std::panic::catch_unwind(move || flatten(lib_opt::analyze_dir(&d2, vec![v]))) {
+                Ok(h) => {
+                    o.hits.insert(key, h);
+                }
+                Err(_) => o.panics.push(key.1),
+            }
+        }
+        for v in lib_vul::get_all_vulnerabilities() {
+            let d2 = d.clone();
+            let key = (dir.to_string(), format!("vuln:{:?}", v));
+            match std::panic::catch_unwind(move || flatten(lib_vul::analyze_dir(&d2, vec![v]))) {
+                Ok(h) => {
+                    o.hits.insert(key, h);
+                }
+                Err(_) => o.panics.push(key.1),
+            }
+        }
+        for v in lib_qa::get_all_qa() {
+            let d2 = d.clone();
+            let key = (dir.to_string(), format!("qa:{:?}", v));
+            match std::panic::catch_unwind(move || flatten(lib_qa::analyze_dir(&d2, vec![v]))) {
+                Ok(h) => {
+                    o.hits.insert(key, h);
+                }
+                Err(_) => o.panics.push(key.1),
+            }
+        }
+    }
+    o
+}
+
+#[derive(Clone, Debug)]
+struct BinCase {
+    flag: Option<String>,  // --path value ("@ABS/x" = absolute path of x in the working directory)
+    toml: bool,            // --toml conf.toml given
+    verbatim: bool,        // the toml file is a verbatim copy of the repository's Solstat.toml
+    tpath: Option<String>, // `path` key of the toml file (None = key absent)
+    contracts: bool,       // ./contracts exists
+    pre: bool,             // a solstat_report.md with junk content exists before the run
+    lists: [Vec<String>; 3],
+}
+
+impl BinCase {
+    fn encode(&self) -> String {
+        let mut s = String::from("kind=bin");
+        if let Some(f) = &self.flag {
+            s.push_str(&format!(";flag={}", pct_enc(f)));
+        }
+        s.push_str(&format!(";toml={};verbatim={}", self.toml as u8, self.verbatim as u8));
+        if let Some(t) = &self.tpath {
+            s.push_str(&format!(";tpath={}", pct_enc(t)));
+        }
+        s.push_str(&format!(";contracts={};pre={}", self.contracts as u8, self.pre as u8));
+        s.push_str(&format!(";o={};v={};q={}", enc_list(&self.lists[0]), enc_list(&self.lists[1]), enc_list(&self.lists[2])));
+        s
+    }
+    fn decode(s: &str) -> BinCase {
+        let m = parse_kv_raw(s);
+        let g = |k: &str| m.get(k).map(|v| pct_dec(v));
+        let l = |k: &str| dec_list(m.get(k).map(|x| x.as_str()).unwrap_or(""));
+        BinCase {
+            flag: g("flag"),
+            toml: g("toml").as_deref() == Some("1"),
+            verbatim: g("verbatim").as_deref() == Some("1"),
+            tpath: g("tpath"),
+            contracts: g("contracts").as_deref() == Some("1"),
+            pre: g("pre").as_deref() == Some("1"),
+            lists: [l("o"), l("v"), l("q")],
+        }
+    }
+    fn replay(&self) -> Vec<String> {
+        vec!["c14-case".into(), format!("@src:{}", self.encode())]
+    }
+}
+
+fn toml_str(s: &str) -> String {
+    let mut o = String::from("\"");
+    for c in s.chars() {
+        match c {
+            '"' => o.push_str("\\\""),
+            '\\' => o.push_str("\\\\"),
+            '\n' => o.push_str("\\n"),
+            '\t' => o.push_str("\\t"),
+            c => o.push(c),
+        }
+    }
+    o.push('"');
+    o
+}
+
+struct ObservedOpts {
+    path: String,
+    lists: [Vec<String>; 3],
+}
+fn parse_opts_line(stderr: &str) -> Option<ObservedOpts> {
+    let line = stderr.lines().find(|l| l.starts_with("VERIF-OPTS "))?;
+    let rest = line.strip_prefix("VERIF-OPTS path=\"")?;
+    let mut path = String::new();
+    let mut it = rest.char_indices();
+    let mut end = None;
+    while let Some((i, c)) = it.next() {
+        if c == '\\' {
+            if let Some((_, d)) = it.next() {
+                path.push(d);
+            }
+        } else if c == '"' {
+            end = Some(i);
+            break;
+        } else {
+            path.push(c);
+        }
+    }
+    let tail = &rest[end? + 1..];
+    let list = |key: &str| -> Option<Vec<String>> {
+        let k = format!(" {}=[", key);
+        let s = tail.find(&k)? + k.len();
+        let e = tail[s..].find(']')? + s;
+        let body = tail[s..e].trim();
+        Some(if body.is_empty() { vec![] } else { body.split(',').map(|x| x.trim().to_string()).collect() })
+    };
+    Some(ObservedOpts { path, lists: [list("optimizations")?, list("vulnerabilities")?, list("qa")?] })
+}
+
+fn norm_path(p: &str, root: &Path) -> String {
+    let mut s = p.to_string();
+    let r = root.to_string_lossy().to_string();
+    if let Some(t) = s.strip_prefix(&r) {
+        s = t.trim_start_matches('/').to_string();
+    }
+    while let Some(t) = s.strip_prefix("./") {
+        s = t.to_string();
+    }
+    s.trim_end_matches('/').to_string()
+}
+
+/// "- File.sol:12" lines of a report -> sorted ["File.sol:12"]
+fn report_hits(report: &str) -> Vec<String> {
+    let mut v = vec![];
+    for l in report.lines() {
+        if let Some(t) = l.strip_prefix("- ") {
+            if let Some((f, n)) = t.rsplit_once(':') {
+                if f.ends_with(".sol") && !n.is_empty() && n.chars().all(|c| c.is_ascii_digit()) {
+                    v.push(t.to_string());
+                }
+            }
+        }
+    }
+    v.sort();
+    v
+}
+
+const JUNK_REPORT: &str = "JUNK-REPORT-HEAD previous content that is not a solstat report\n";
+
+fn eval_bin_case(bin: &Path, case: &BinCase, doc: &Documented, oracle: &Oracle) -> (Vec<Viol>, String) {
+    let mut viols: Vec<Viol> = vec![];
+    let sc = Scratch::new();
+    let cwd = sc.p("cwd");
+    fs::create_dir_all(&cwd).expect("mkdir cwd");
+    let cwd = fs::canonicalize(&cwd).unwrap_or(cwd);
+    layout_c14(&cwd, case.contracts);
+    let abs = |v: &str| -> String {
+        match v.strip_prefix("@ABS/") {
+            Some(t) => cwd.join(t).to_string_lossy().to_string(),
+            None => v.to_string(),
+        }
+    };
+    let mut args: Vec<String> = vec![];
+    if let Some(f) = &case.flag {
+        args.push("--path".into());
+        args.push(abs(f));
+    }
+    // the lists the toml file contains
+    let mut lists = case.lists.clone();
+    let mut tpath = case.tpath.clone();
+    if case.toml {
+        let text = if case.verbatim {
+            tpath = Some("./contracts".to_string());
+            for (i, c) in CATS.iter().enumerate() {
+                lists[i] = doc.sample_toml[c].clone();
+            }
+            fs::read_to_string(repo_dir().join("Solstat.toml")).unwrap_or_default()
+        } else {
+            let mut t = String::new();
+            if let Some(p) = &tpath {
+                t.push_str(&format!("path = {}\n", toml_str(&abs(p))));
+            }
+            for (i, c) in CATS.iter().enumerate() {
+                t.push_str(&format!("{} = [{}]\n", c.toml_key(), lists[i].iter().map(|n| toml_str(n)).collect::<Vec<_>>().join(", ")));
+            }
+            t
+        };
+        if case.verbatim {
+            // what the sample says about `path` is scraped, not assumed
+            tpath = None;
+            for l in text.lines() {
+                let l = l.trim();
+                if let Some(r) = l.strip_prefix("path") {
+                    if let Some(v) = r.trim_start().strip_prefix('=') {
+                        tpath = Some(v.trim().trim_matches(|c| c == '\'' || c == '"').to_string());
+                    }
+                }
+            }
+        }
+        write_file(&cwd.join("conf.toml"), text.as_bytes(), 0o644);
+        args.push("--toml".into());
+        args.push("conf.toml".into());
+    }
+    if case.pre {
+        write_file(&cwd.join(REPORT), JUNK_REPORT.as_bytes(), 0o644);
+    }
+    let out = run_bin(bin, &cwd, &args, &sc.p("_io"));
+    let report = fs::read(cwd.join(REPORT)).ok();
+    let report_untouched = if case.pre { report.as_deref() == Some(JUNK_REPORT.as_bytes()) } else { report.is_none() };
+    let cmdline = format!(
+        "solstat {} [toml: path={:?} {:?}] ./contracts {}",
+        args.join(" "),
+        if case.toml { tpath.clone() } else { None },
+        if case.toml { Some(&lists) } else { None },
+        if case.contracts { "exists" } else { "absent" }
+    );
+    let actual_run = format!("{}; report {}; stderr: {}", out.status(), if report_untouched { "untouched" } else { "written" }, out.err_tail());
+
+    // classification of the listed names by the DOCUMENTS (not by the table under test)
+    let mut unknown: Vec<String> = vec![];
+    let mut depends_on_rejected_documented = false;
+    let mut expected_lists: [Vec<String>; 3] = [vec![], vec![], vec![]];
+    for (i, c) in CATS.iter().enumerate() {
+        if case.toml {
+            for n in &lists[i] {
+                let documented = doc.names[c].keys().any(|k| k.to_lowercase() == n.to_lowercase());
+                if !documented {
+                    unknown.push(n.clone());
+                } else {
+                    match resolve(*c, &n.to_lowercase()) {
+                        Some(v) => {
+                            if !expected_lists[i].contains(&v) {
+                                expected_lists[i].push(v)
+                            }
+                        }
+                        None => depends_on_rejected_documented = true,
+                    }
+                }
+            }
+        } else {
+            expected_lists[i] = defaults(*c);
+        }
+        expected_lists[i].sort();
+    }
+    if !unknown.is_empty() {
+        if out.ok() {
+            viols.push((
+                "c14:unknown-name-accepted:binary".into(),
+                format!("the run succeeds although the configuration lists the unknown name(s) {:?}: {}", unknown, cmdline),
+                "non-zero exit status".into(),
+                actual_run.clone(),
+            ));
+        }
+        if !report_untouched {
+            viols.push((
+                "c14:unknown-name-still-writes-report".into(),
+                format!("solstat_report.md is written although the configuration lists the unknown name(s) {:?}: {}", unknown, cmdline),
+                "no report written, an existing one left unchanged".into(),
+                actual_run.clone(),
+            ));
+        }
+        return (viols, cmdline);
+    }
+    if depends_on_rejected_documented {
+        // already reported by the name-table part (documented-name-rejected); nothing more to learn here
+        return (viols, format!("SKIPPED (lists a documented name the table rejects) {}", cmdline));
+    }
+
+    // required precedence: --path, else toml path, else ./contracts
+    let (source, expected_path) = if let Some(f) = &case.flag {
+        ("flag", abs(f))
+    } else if case.toml && tpath.is_some() {
+        ("toml", abs(tpath.as_ref().unwrap()))
+    } else {
+        ("default", "./contracts".to_string())
+    };
+    let dir_key = match source {
+        "flag" => "c14:flag-path-ignored",
+        "toml" => "c14:toml-path-ignored",
+        _ => "c14:wrong-default-dir",
+    };
+    let kind = norm_path(&expected_path, &cwd);
+    let exists = cwd.join(&kind).is_dir();
+    let expect_desc = format!("analysed directory = {} ({}), patterns = {:?}", expected_path, source, expected_lists);
+    if !exists {
+        if out.ok() || !report_untouched {
+            viols.push((dir_key.into(), format!("the directory to analyse ({}) does not exist, yet the run succeeds or writes a report: {}", expected_path, cmdline), "failure, no report".into(), actual_run));
+        }
+        return (viols, cmdline);
+    }
+    if !out.ok() {
+        let all_out = format!("{}\n{}", out.stdout, out.stderr);
+        let key = if case.toml && case.tpath.is_none() && !case.verbatim && all_out.contains("missing field") {
+            "c14:toml-without-path-rejected"
+        } else if all_out.contains("`./contracts` by default") || all_out.contains("Could not read contracts from directory") {
+            dir_key // the binary looked for another directory than the one required
+        } else {
+            "c14:valid-config-run-fails"
+        };
+        viols.push((key.into(), format!("the run fails although the directory to analyse exists: {}", cmdline), format!("exit status 0; {}", expect_desc), actual_run));
+        return (viols, cmdline);
+    }
+    // observation 1: hook H1
+    match parse_opts_line(&out.stderr) {
+        None => viols.push(("harness:no-verif-opts-line".into(), "the binary printed no VERIF-OPTS line (built without --cfg solstat_verif?)".into(), "VERIF-OPTS line".into(), out.err_tail())),
+        Some(o) => {
+            if norm_path(&o.path, &cwd) != kind {
+                viols.push((dir_key.into(), format!("resolved directory is {:?}: {}", o.path, cmdline), expect_desc.clone(), format!("VERIF-OPTS path={:?}", o.path)));
+            }
+            for i in 0..3 {
+                let mut got = o.lists[i].clone();
+                got.sort();
+                got.dedup();
+                if got != expected_lists[i] {
+                    let key = if case.toml { "c14:toml-patterns-not-exact" } else { "c14:default-not-all-patterns" };
+                    viols.push((key.into(), format!("resolved {} differ from the configured ones: {}", CATS[i].toml_key(), cmdline), format!("{:?}", expected_lists[i]), format!("{:?}", got)));
+                }
+            }
+        }
+    }
+    // observation 2: the report
+    match report {
+        None => viols.push(("c14:no-report-written".into(), format!("the run succeeds but writes no solstat_report.md: {}", cmdline), "report written".into(), actual_run)),
+        Some(bytes) => {
+            let text = String::from_utf8_lossy(&bytes).to_string();
+            let got = report_hits(&text);
+            let own_file = CANDIDATES.iter().find(|(d, _, _)| *d == kind).map(|(_, f, _)| *f).unwrap_or("?");
+            let foreign: BTreeSet<String> = got.iter().map(|h| h.rsplit_once(':').unwrap().0.to_string()).filter(|f| f != own_file).collect();
+            let mut expected: Vec<String> = vec![];
+            for (i, c) in CATS.iter().enumerate() {
+                for v in &expected_lists[i] {
+                    if let Some(h) = oracle.hits.get(&(kind.clone(), format!("{}:{}", c.tag(), v))) {
+                        expected.extend(h.iter().cloned());
+                    }
+                }
+            }
+            expected.sort();
+            // the same prediction when a pattern selected by two listed names is counted once per name
+            let mut expected_per_name: Vec<String> = vec![];
+            for (i, c) in CATS.iter().enumerate() {
+                if case.toml {
+                    for n in &lists[i] {
+                        if let Some(v) = resolve(*c, &n.to_lowercase()) {
+                            if let Some(h) = oracle.hits.get(&(kind.clone(), format!("{}:{}", c.tag(), v))) {
+                                expected_per_name.extend(h.iter().cloned());
+                            }
+                        }
+                    }
+                }
+            }
+            expected_per_name.sort();
+            if !foreign.is_empty() {
+                viols.push((dir_key.into(), format!("the report lists files of another directory ({:?}): {}", foreign, cmdline), expect_desc, format!("report findings: {:?}", got)));
+            } else if got != expected && case.toml && got == expected_per_name {
+                viols.push(("c14:aliased-names-duplicate-findings".into(), format!("a pattern listed under two of its accepted names is reported once per name: {}", cmdline), format!("{:?}", expected), format!("{:?}", got)));
+            } else if got != expected {
+                viols.push(("c14:report-disagrees-with-selection".into(), format!("the report's findings are not those of the selected patterns on the selected directory: {}", cmdline), format!("{:?}", expected), format!("{:?}", got)));
+            } else if case.pre && text.contains("JUNK-REPORT-HEAD") {
+                viols.push(("c18:report-appended".into(), format!("previous report content survives: {}", cmdline), "report replaced".into(), "junk marker still present".into()));
+            }
+        }
+    }
+    (viols, cmdline)
+}
+
+fn rand_case(name: &str, rng: &mut Rng) -> String {
+    let bits: Vec<bool> = (0..name.len()).map(|_| rng.below(2) == 1).collect();
+    apply_case(name, &|i| bits[i])
+}
+
+fn c14_bin(r: &mut CheckResult, bin: &Path, doc: &Documented, tier: &str, rng: &mut Rng) {
+    let thorough = tier == "thorough";
+    let oracle = build_oracle();
+    for p in &oracle.panics {
+        r.violate(&format!("harness:probe-contract-panics:{}", p), "the probe contract of the C14 harness makes a detector panic (unrelated defect polluting C14)", vec!["c14".into()], "no panic".into(), "panic".into());
+    }
+    let acc: Vec<Vec<String>> = CATS.iter().map(|c| accepted_map(*c, doc).keys().cloned().collect()).collect();
+    let pick_one = |i: usize, want: &str| -> Vec<String> {
+        if acc[i].iter().any(|n| n == want) {
+            vec![want.to_string()]
+        } else {
+            acc[i].iter().take(1).cloned().collect()
+        }
+    };
+    // selections
+    let mut sels: Vec<[Vec<String>; 3]> = vec![];
+    sels.push([pick_one(0, "address_balance"), pick_one(1, "unsafe_erc20_operation"), pick_one(2, "private_vars_leading_underscore")]);
+    sels.push([vec![], vec![], vec![]]);
+    let sample: Vec<Vec<String>> = CATS.iter().enumerate().map(|(i, c)| doc.sample_toml[c].iter().filter(|n| acc[i].contains(&n.to_lowercase())).cloned().collect()).collect();
+    sels.push([sample[0].clone(), sample[1].clone(), sample[2].clone()]);
+    sels.push([acc[0].iter().map(|n| n.to_uppercase()).collect(), acc[1].iter().map(|n| n.to_uppercase()).collect(), acc[2].iter().map(|n| n.to_uppercase()).collect()]);
+    let n_fixed = sels.len();
+    let n_rand = if thorough { 24 } else { 2 };
+    for _ in 0..n_rand {
+        let mut s: [Vec<String>; 3] = [vec![], vec![], vec![]];
+        for i in 0..3 {
+            for n in &acc[i] {
+                if rng.below(2) == 0 {
+                    s[i].push(rand_case(n, rng));
+                }
+            }
+            rng.shuffle(&mut s[i]);
+        }
+        sels.push(s);
+    }
+    let flags: Vec<Option<String>> = if thorough {
+        vec![None, Some("pdir".into()), Some("./pdir/".into()), Some("@ABS/pdir".into())]
+    } else {
+        vec![None, Some("pdir".into())]
+    };
+    let tpaths: Vec<Option<String>> = if thorough {
+        vec![None, Some("tdir".into()), Some("./contracts".into()), Some("@ABS/tdir".into()), Some("./tdir/".into()), Some("tdir/".into())]
+    } else {
+        vec![None, Some("tdir".into()), Some("./contracts".into()), Some("@ABS/tdir".into())]
+    };
+    let mut cases: Vec<BinCase> = vec![];
+    for flag in &flags {
+        for contracts in [true, false] {
+            cases.push(BinCase { flag: flag.clone(), toml: false, verbatim: false, tpath: None, contracts, pre: false, lists: [vec![], vec![], vec![]] });
+            cases.push(BinCase { flag: flag.clone(), toml: true, verbatim: true, tpath: None, contracts, pre: false, lists: [vec![], vec![], vec![]] });
+            for (ti, tp) in tpaths.iter().enumerate() {
+                for (si, s) in sels.iter().enumerate() {
+                    if !thorough && ti == 3 && si != 0 && si < n_fixed {
+                        continue;
+                    }
+                    cases.push(BinCase { flag: flag.clone(), toml: true, verbatim: false, tpath: tp.clone(), contracts, pre: false, lists: s.clone() });
+                }
+            }
+        }
+    }
+    // unknown names: one bad name among good ones
+    for (i, c) in CATS.iter().enumerate() {
+        let mut bad: Vec<String> = vec!["not_a_pattern".into(), String::new()];
+        if let Some(n) = acc[i].iter().find(|n| n.contains('_')) {
+            bad.push(n.replace('_', "-"));
+            bad.push(format!("{} ", n));
+        }
+        let other = (i + 1) % 3;
+        if let Some(n) = acc[other].first() {
+            bad.push(n.clone());
+        }
+        if thorough {
+            for (_, s) in junk_names(*c, doc, 12, rng).into_iter().filter(|(cl, _)| cl == "mutation") {
+                bad.push(s);
+            }
+        }
+        for b in bad {
+            for first in [true, false] {
+                for pre in [false, true] {
+                    let mut lists = sels[0].clone();
+                    if first {
+                        lists[i].insert(0, b.clone());
+                    } else {
+                        lists[i].push(b.clone());
+                    }
+                    cases.push(BinCase { flag: Some("pdir".into()), toml: true, verbatim: false, tpath: Some("tdir".into()), contracts: true, pre, lists });
+                }
+            }
+        }
+    }
+    let mut skipped = 0;
+    for case in &cases {
+        let (viols, desc) = eval_bin_case(bin, case, doc, &oracle);
+        r.evaluations += 1;
+        if desc.starts_with("SKIPPED") {
+            skipped += 1;
+        } else {
+            r.nontrivial.insert(case.encode());
+        }
+        if r.samples.len() < 5 && r.evaluations % 7 == 0 {
+            r.sample(J::obj(vec![("run", J::s(desc.clone())), ("violations", J::Num(viols.len() as i64))]));
+        }
+        for (k, w, e, a) in viols {
+            r.violate(&k, &w, case.replay(), e, a);
+        }
+    }
+    r.extra.push(("binary_runs".into(), J::Num(cases.len() as i64)));
+    r.extra.push(("binary_runs_skipped".into(), J::Num(skipped)));
+    let nonempty = oracle.hits.iter().filter(|((d, _), h)| d == "tdir" && !h.is_empty()).count();
+    r.extra.push(("patterns_with_findings_on_probe".into(), J::Num(nonempty as i64)));
+}
+
+pub fn run_c14(tier: &str, seed: u64) -> CheckResult {
+    let mut r = CheckResult::new("c14");
+    let mut rng = Rng::new(seed);
+    let doc = scrape_documents();
+    for m in &doc.missing {
+        r.violate(&format!("harness:document-missing:{}", m), "a document that lists pattern names cannot be read", vec!["c14".into()], "readable".into(), "missing".into());
+    }
+    for c in CATS {
+        if doc.names[&c].is_empty() {
+            r.violate(&format!("harness:no-documented-names:{}", c.tag()), "no pattern names could be scraped for this category", vec!["c14".into()], "at least one name".into(), "none".into());
+        }
+    }
+    silence_panics(|| {
+        c14_lib(&mut r, &doc, tier, &mut rng);
+        match solstat_bin(false) {
+            Some(bin) => c14_bin(&mut r, &bin, &doc, tier, &mut rng),
+            None => r.violate("harness:no-binary", "VXN_SOLSTAT_BIN is not set or is not a file: the binary half of C14 was not run", vec!["c14".into()], "path of the solstat binary".into(), "unset".into()),
+        }
+    });
+    r.extra.push(("documented_names".into(), J::Obj(CATS.iter().map(|c| (c.tag().to_string(), J::arr_s(doc.names[c].keys().cloned()))).collect())));
+    r.extra.push(("names_per_source".into(), J::Obj(doc.per_source.iter().map(|(s, n)| (s.clone(), J::Num(*n as i64))).collect())));
+    r.rule = "name table: one case = one (category, spelling) call of the real str_to_*; non-trivial = distinct spellings (documented names in fixed + seeded/all casings; junk and near-miss names that must be rejected). binary: one case = one run of the real solstat binary in a fresh working directory that holds DIFFERENT probe files in ./contracts, ./tdir (toml path), ./pdir (--path) and ./ ; non-trivial = distinct (flag, toml, toml path, ./contracts present, pattern lists) combinations; the directory and the patterns are observed twice: hook H1 (VERIF-OPTS) and the file:line entries of solstat_report.md compared with the union of the library's per-pattern findings on the expected directory".into();
+    r.bound = format!(
+        "{} documented names x (7 fixed casings + {} seeded casings, or all 2^letters when fewer); all pairs for distinctness; every get_all_* entry for reachability; --path in {} forms x ./contracts present/absent x (no toml | sample Solstat.toml verbatim | toml path in {} forms x {} pattern selections) + unknown-name runs",
+        doc.names.values().map(|m| m.len()).sum::<usize>(),
+        if tier == "thorough" { 4096 } else { 256 },
+        if tier == "thorough" { 4 } else { 2 },
+        if tier == "thorough" { 6 } else { 4 },
+        if tier == "thorough" { 28 } else { 6 }
+    );
+    r.assumptions.push("documented names = first column of the tables in docs/identified-*.md + arrays of Solstat.toml + toml arrays in README.md code blocks (scraped on every run)".into());
+    r.assumptions.push("the per-pattern findings used to predict the report come from the library's own analyze_dir (detector correctness is the subject of other properties)".into());
+    r.assumptions.push("a toml file without a `path` key is taken to mean 'path not set in the configuration file' (third clause of the precedence rule)".into());
+    r
+}
+
+/// replay of one C14 case; returns (holds, message)
+pub fn replay_c14(payload: &str) -> (bool, String) {
+    let m = parse_kv(payload);
+    let kind = m.get("kind").cloned().unwrap_or_default();
+    let doc = scrape_documents();
+    silence_panics(|| {
+        let viols: Vec<Viol> = if kind == "bin" {
+            let case = BinCase::decode(payload);
+            match solstat_bin(true) {
+                Some(bin) => {
+                    let oracle = build_oracle();
+                    let (v, desc) = eval_bin_case(&bin, &case, &doc, &oracle);
+                    println!("{}", desc);
+                    v
+                }
+                None => return (true, "no solstat binary (set VXN_SOLSTAT_BIN)".to_string()),
+            }
+        } else {
+            let cat = match m.get("cat").and_then(|t| Cat::from_tag(t)) {
+                Some(c) => c,
+                None => return (true, "bad payload: cat".to_string()),
+            };
+            let arg = m.get("arg").cloned().unwrap_or_default();
+            let v = match kind.as_str() {
+                "name" => {
+                    // the documented name this spelling belongs to
+                    let d = doc.names[&cat].keys().find(|k| k.to_lowercase() == arg.to_lowercase()).cloned().unwrap_or_else(|| arg.clone());
+                    check_name(cat, &d, &arg)
+                }
+                "indefault" => check_in_default(cat, &arg),
+                "collide" => arg.split_once(',').and_then(|(a, b)| check_collide(cat, a, b)),
+                "reach" => check_reachable(cat, &arg, &doc),
+                "reject" => {
+                    let (class, s) = arg.split_once('|').unwrap_or(("junk", arg.as_str()));
+                    check_reject(cat, class, s)
+                }
+                _ => return (true, format!("bad payload: kind {:?}", kind)),
+            };
+            v.into_iter().collect()
+        };
+        if viols.is_empty() {
+            (true, "contract holds".to_string())
+        } else {
+            (false, viols.iter().map(|(k, w, e, a)| format!("{}: {}\n  expected: {}\n  actual:   {}", k, w, e, a)).collect::<Vec<_>>().join("\n"))
+        }
+    })
+}
+
+// ------------------------------------------------------------------------------------------------
+// C18: frame of a run
+
+/// findings for exactly one pattern per category when ALL patterns run (unsafe_erc20_operation, sstore,
+/// private_vars_leading_underscore): the section order of the report cannot vary (C13's defect stays out)
+fn one_sol(contract: &str, lead: usize) -> String {
+    let mut s = String::new();
+    for i in 0..lead {
+        s.push_str(&format!("// filler line {}\n", i));
+    }
+    s.push_str("pragma solidity 0.8.10;\n\ninterface IERC20 {\n    function transfer(address to, uint256 amount) external returns (bool);\n}\n\n");
+    s.push_str(&format!("contract {} {{\n", contract));
+    s.push_str("    uint256 private counter;\n\n    function poke(address token, uint256 amount) external payable {\n        IERC20(token).transfer(msg.sender, amount);\n        counter = amount;\n    }\n}\n");
+    s
+}
+const CLEAN_SOL: &str = "pragma solidity 0.8.10;\n\ncontract Clean {\n}\n";
+
+enum TKind {
+    File(Vec<u8>, u32),
+    Dir(u32),
+    Link(String),
+}
+struct TEntry {
+    rel: String,
+    kind: TKind,
+}
+
+const TREE_IDS: [&str; 8] = ["single", "mixed", "nested", "two", "clean", "nosol", "decoy", "symlink"];
+
+/// trees(n): fixed small trees + seeded random ones ("rand<seed>.<k>")
+fn make_tree(id: &str, cfg_all: bool) -> Vec<TEntry> {
+    let sol = |name: &str, lead: usize| -> Vec<u8> {
+        if cfg_all {
+            one_sol(name, lead).into_bytes()
+        } else {
+            probe_sol(name, lead).into_bytes()
+        }
+    };
+    let f = |rel: &str, c: Vec<u8>, mode: u32| TEntry { rel: rel.to_string(), kind: TKind::File(c, mode) };
+    let d = |rel: &str, mode: u32| TEntry { rel: rel.to_string(), kind: TKind::Dir(mode) };
+    let bin: Vec<u8> = (0..=255u8).chain([0xff, 0xfe, 0x00, 0xc3]).collect();
+    match id {
+        "single" => vec![f("A.sol", sol("A", 0), 0o644)],
+        "two" => vec![f("A.sol", sol("A", 0), 0o644), f("B.sol", sol("B", 3), 0o644)],
+        "nested" => vec![
+            f("A.sol", sol("A", 1), 0o644),
+            f("sub/B.sol", sol("B", 2), 0o644),
+            f("sub/deep/C.sol", sol("C", 5), 0o644),
+            d("empty", 0o755),
+        ],
+        "mixed" => vec![
+            f("A.sol", sol("A", 0), 0o444),
+            f("notes.txt", b"plain notes\nsecond line\n".to_vec(), 0o444),
+            f("data.bin", bin, 0o644),
+            f("Skipped.t.sol", sol("Skipped", 7), 0o644),
+            f("README.md", b"# readme of the analysed tree\n".to_vec(), 0o644),
+            f("sub/B.sol", sol("B", 4), 0o444),
+            f("sub/.hidden", b"x".to_vec(), 0o600),
+            f("sub/empty.sol.txt", vec![], 0o644),
+            d("ro", 0o555),
+        ],
+        "clean" => vec![f("Clean.sol", CLEAN_SOL.as_bytes().to_vec(), 0o644), f("lib/Clean2.sol", CLEAN_SOL.replace("Clean", "Clean2").into_bytes(), 0o444)],
+        "nosol" => vec![f("notes.txt", b"nothing to analyse here\n".to_vec(), 0o644), d("empty", 0o755)],
+        "decoy" => vec![
+            f("A.sol", sol("A", 2), 0o644),
+            f("sub/solstat_report.md", b"DECOY report in a sub-directory; must stay as it is\n".to_vec(), 0o644),
+            f("sub/B.sol", sol("B", 0), 0o644),
+            f("solstat_report.md.txt", b"DECOY with a longer name\n".to_vec(), 0o644),
+            f("old_solstat_report.md", b"DECOY with a prefix\n".to_vec(), 0o444),
+        ],
+        "symlink" => vec![
+            f("A.sol", sol("A", 1), 0o644),
+            f("notes.txt", b"link target\n".to_vec(), 0o644),
+            TEntry { rel: "link.txt".into(), kind: TKind::Link("notes.txt".into()) },
+            TEntry { rel: "dangling.txt".into(), kind: TKind::Link("does-not-exist".into()) },
+        ],
+        _ => {
+            // rand<seed>.<k>
+            let t = id.trim_start_matches("rand");
+            let (a, b) = t.split_once('.').unwrap_or((t, "0"));
+            let mut rng = Rng::new(a.parse::<u64>().unwrap_or(1).wrapping_mul(1000003).wrapping_add(b.parse::<u64>().unwrap_or(0)));
+            let dirs = ["", "a", "a/b", "c", "a/b/d"];
+            let mut v = vec![];
+            let nsol = 1 + rng.below(5);
+            for i in 0..nsol {
+                let dir = dirs[rng.below(dirs.len())];
+                let name = format!("F{}", i);
+                let rel = if dir.is_empty() { format!("{}.sol", name) } else { format!("{}/{}.sol", dir, name) };
+                let lead = rng.below(9);
+                let mode = if rng.below(3) == 0 { 0o444 } else { 0o644 };
+                v.push(f(&rel, sol(&name, lead), mode));
+            }
+            for (i, extra) in ["notes.txt", "x.t.sol", "data.bin", "solstat_report.md", "Makefile"].iter().enumerate() {
+                if rng.below(2) == 0 {
+                    let dir = dirs[1 + rng.below(dirs.len() - 1)];
+                    let content = if *extra == "x.t.sol" { sol("T", i) } else { format!("extra file {}\n", i).into_bytes() };
+                    v.push(f(&format!("{}/{}", dir, extra), content, if rng.below(2) == 0 { 0o444 } else { 0o644 }));
+                }
+            }
+            if rng.below(2) == 0 {
+                v.push(d("emptydir", 0o755));
+            }
+            v
+        }
+    }
+}
+
+fn materialize(root: &Path, tree: &[TEntry]) {
+    fs::create_dir_all(root).expect("mkdir tree");
+    // files and links first, directory modes last (a read-only directory must be filled before)
+    for e in tree {
+        let p = root.join(&e.rel);
+        match &e.kind {
+            TKind::File(c, mode) => write_file(&p, c, *mode),
+            TKind::Link(t) => {
+                if let Some(d) = p.parent() {
+                    fs::create_dir_all(d).expect("mkdir");
+                }
+                std::os::unix::fs::symlink(t, &p).expect("symlink");
+            }
+            TKind::Dir(_) => fs::create_dir_all(&p).expect("mkdir"),
+        }
+    }
+    for e in tree {
+        if let TKind::Dir(mode) = &e.kind {
+            fs::set_permissions(root.join(&e.rel), fs::Permissions::from_mode(*mode)).expect("chmod dir");
+        }
+    }
+}
+
+#[derive(Clone, Debug)]
+struct FrameCase {
+    tree: String,
+    cwd: String,   // outside | inside | parent
+    pre: String,   // none | big | small
+    cfg: String,   // all (no toml) | toml (one pattern per category)
+    style: String, // rel | abs | default (default: only with cwd=parent, the tree is ./contracts and no --path is given)
+}
+impl FrameCase {
+    fn encode(&self) -> String {
+        format!("tree={};cwd={};pre={};cfg={};style={}", self.tree, self.cwd, self.pre, self.cfg, self.style)
+    }
+    fn decode(s: &str) -> FrameCase {
+        let m = parse_kv(s);
+        let g = |k: &str, d: &str| m.get(k).cloned().unwrap_or_else(|| d.to_string());
+        FrameCase { tree: g("tree", "single"), cwd: g("cwd", "outside"), pre: g("pre", "none"), cfg: g("cfg", "all"), style: g("style", "rel") }
+    }
+    fn replay(&self) -> Vec<String> {
+        vec!["c18-case".into(), format!("@src:{}", self.encode())]
+    }
+}
+
+fn junk_report(big: bool) -> Vec<u8> {
+    let mut s = String::from(JUNK_REPORT);
+    if big {
+        while s.len() < 600_000 {
+            s.push_str("- Old.sol:1 junk junk junk junk junk junk junk junk junk junk junk junk junk junk junk junk\n");
+        }
+    }
+    s.push_str("JUNK-REPORT-TAIL\n");
+    s.into_bytes()
+}
+
+fn canonical(report: &[u8]) -> Vec<Vec<u8>> {
+    let mut v: Vec<Vec<u8>> = report.split(|b| *b == b'\n').map(|l| l.to_vec()).collect();
+    v.sort();
+    v
+}
+
+struct FrameOutcome {
+    viols: Vec<Viol>,
+    first_report: Option<Vec<u8>>,
+    order_only: u64,
+    desc: String,
+}
+
+/// one history: snapshot, run, snapshot, run, snapshot
+fn eval_frame_case(bin: &Path, case: &FrameCase, reference: Option<&Vec<u8>>) -> FrameOutcome {
+    let sc = Scratch::new();
+    let cfg_all = case.cfg != "toml";
+    let tree = make_tree(&case.tree, cfg_all);
+    let style = if case.style == "default" && case.cwd != "parent" { "rel" } else { case.style.as_str() };
+    let (cwd_rel, tree_rel, rel_arg): (&str, &str, &str) = match case.cwd.as_str() {
+        "inside" => ("tree", "tree", "."),
+        "parent" => ("par", "par/contracts", "contracts"),
+        _ => ("work", "tree", "../tree"),
+    };
+    materialize(&sc.p(tree_rel), &tree);
+    fs::create_dir_all(sc.p(cwd_rel)).expect("mkdir cwd");
+    if case.cwd != "inside" {
+        write_file(&sc.p(cwd_rel).join("keep.txt"), b"bystander file in the working directory\n", 0o644);
+        write_file(&sc.p(cwd_rel).join("old/solstat_report.md"), b"bystander report in a sub-directory of the working directory\n", 0o444);
+    }
+    let path_arg: Option<String> = match style {
+        "default" => None,
+        "abs" => Some(sc.p(tree_rel).to_string_lossy().to_string()),
+        _ => Some(rel_arg.to_string()),
+    };
+    let mut args: Vec<String> = vec![];
+    if let Some(p) = &path_arg {
+        args.push("--path".into());
+        args.push(p.clone());
+    }
+    if !cfg_all {
+        let tp = path_arg.clone().unwrap_or_else(|| "./contracts".to_string());
+        let text = format!(
+            "path = {}\noptimizations = [\"address_balance\"]\nvulnerabilities = [\"unsafe_erc20_operation\"]\nqa = [\"private_vars_leading_underscore\"]\n",
+            toml_str(&tp)
+        );
+        write_file(&sc.p("conf.toml"), text.as_bytes(), 0o444);
+        args.push("--toml".into());
+        args.push("../conf.toml".into());
+    }
+    let report_rel = format!("{}/{}", cwd_rel, REPORT);
+    let junk = match case.pre.as_str() {
+        "big" => Some(junk_report(true)),
+        "small" => Some(junk_report(false)),
+        _ => None,
+    };
+    if let Some(j) = &junk {
+        write_file(&sc.p(&report_rel), j, 0o644);
+    }
+    let desc = format!("tree {} ({} entries), cwd {} , solstat {} , previous report: {}", case.tree, tree.len(), cwd_rel, args.join(" "), case.pre);
+    let mut out = FrameOutcome { viols: vec![], first_report: None, order_only: 0, desc: desc.clone() };
+    let in_tree = |rel: &str| rel == tree_rel || rel.starts_with(&format!("{}/", tree_rel));
+    let mut prev = snapshot(&sc.root, "_io");
+    let mut reports: Vec<Vec<u8>> = vec![];
+    for run in 1..=2 {
+        let o = run_bin(bin, &sc.p(cwd_rel), &args, &sc.p("_io"));
+        let now = snapshot(&sc.root, "_io");
+        if !o.ok() {
+            out.viols.push(("c18:run-failed".into(), format!("run {} fails: {}", run, desc), "exit status 0".into(), format!("{}; stderr: {}", o.status(), o.err_tail())));
+        }
+        for (rel, ch) in diff_snap(&prev, &now) {
+            if rel == report_rel {
+                if ch == Change::Deleted || ch == Change::TypeOrMode {
+                    out.viols.push(("c18:report-not-a-plain-replacement".into(), format!("run {}: ./solstat_report.md {:?}: {}", run, ch, desc), "created or content replaced".into(), format!("{:?}", ch)));
+                }
+                continue;
+            }
+            let shown = rel.strip_prefix(&format!("{}/", cwd_rel)).map(|r| format!("./{}", r)).unwrap_or_else(|| format!("<scratch>/{}", rel));
+            let (key, what) = match ch {
+                Change::Created => {
+                    // stable class: the path relative to the working directory (paths inside a seeded random tree generalised)
+                    let class = if case.tree.starts_with("rand") && in_tree(&rel) && rel != report_rel { "<inside-generated-tree>".to_string() } else { shown.clone() };
+                    (format!("c18:extra-file-written:{}", class), format!("run {} creates {}", run, shown))
+                }
+                Change::Touched if in_tree(&rel) => ("c18:input-touched".to_string(), format!("run {} changes the modification time of the input {}", run, shown)),
+                _ if in_tree(&rel) => ("c18:input-modified".to_string(), format!("run {} modifies the analysed tree: {} {:?}", run, shown, ch)),
+                _ => ("c18:bystander-modified".to_string(), format!("run {} modifies a file that is neither input nor the report: {} {:?}", run, shown, ch)),
+            };
+            out.viols.push((key, format!("{}: {}", what, desc), format!("only ./{} differs", REPORT), format!("{} {:?}", shown, ch)));
+        }
+        let rep = match now.get(&report_rel) {
+            Some(e) if e.kind == 'f' => fs::read(sc.p(&report_rel)).unwrap_or_default(),
+            _ => {
+                if o.ok() {
+                    out.viols.push(("c18:no-report-written".into(), format!("run {} leaves no regular file ./solstat_report.md: {}", run, desc), "report file".into(), "absent".into()));
+                }
+                break;
+            }
+        };
+        let text = String::from_utf8_lossy(&rep).to_string();
+        if run == 1 && junk.is_some() {
+            if text.contains("JUNK-REPORT-HEAD") {
+                out.viols.push(("c18:report-appended".into(), format!("the previous content of ./solstat_report.md survives the run: {}", desc), "report replaced".into(), format!("{} bytes, previous content still at the start ({} bytes before)", rep.len(), junk.as_ref().unwrap().len())));
+            } else if text.contains("JUNK-REPORT-TAIL") {
+                out.viols.push(("c18:report-not-truncated".into(), format!("the tail of a longer previous report survives the run: {}", desc), "report replaced".into(), format!("{} bytes, tail marker of the previous content present", rep.len())));
+            }
+        }
+        if run == 2 {
+            let first = &reports[0];
+            if &rep != first {
+                if !first.is_empty() && rep.len() > first.len() && rep.starts_with(first) {
+                    out.viols.push(("c18:report-appended".into(), format!("the second run appends to the first run's report: {}", desc), format!("{} bytes", first.len()), format!("{} bytes starting with the first report", rep.len())));
+                } else if canonical(&rep) == canonical(first) {
+                    out.order_only += 1; // same lines in another order: C13's defect, not a frame defect
+                } else {
+                    out.viols.push(("c18:second-run-differs".into(), format!("the second run's report differs from the first although no input changed: {}", desc), format!("{} bytes, hash {:016x}", first.len(), fnv64(first)), format!("{} bytes, hash {:016x}", rep.len(), fnv64(&rep))));
+                }
+            }
+        }
+        reports.push(rep);
+        prev = now;
+    }
+    if let Some(first) = reports.first() {
+        out.first_report = Some(first.clone());
+        // the result must not depend on the working directory or on what lay in it
+        let own_ref;
+        let reference = match reference {
+            Some(r) => Some(r),
+            None if case.cwd != "outside" || case.pre != "none" => {
+                let rc = FrameCase { tree: case.tree.clone(), cwd: "outside".into(), pre: "none".into(), cfg: case.cfg.clone(), style: "rel".into() };
+                own_ref = eval_frame_case(bin, &rc, Some(first)).first_report;
+                own_ref.as_ref()
+            }
+            None => None,
+        };
+        if let Some(r) = reference {
+            if r != first {
+                if canonical(r) == canonical(first) {
+                    out.order_only += 1;
+                } else {
+                    out.viols.push(("c18:result-depends-on-cwd".into(), format!("the report differs from the one obtained for the same tree from an unrelated, empty working directory: {}", desc), format!("{} bytes, hash {:016x}", r.len(), fnv64(r)), format!("{} bytes, hash {:016x}", first.len(), fnv64(first))));
+                }
+            }
+        }
+    }
+    out
+}
+
+pub fn run_c18(tier: &str, seed: u64) -> CheckResult {
+    let mut r = CheckResult::new("c18");
+    let thorough = tier == "thorough";
+    let bin = match solstat_bin(false) {
+        Some(b) => b,
+        None => {
+            r.violate("harness:no-binary", "VXN_SOLSTAT_BIN is not set or is not a file: C18 was not run", vec!["c18".into()], "path of the solstat binary".into(), "unset".into());
+            return r;
+        }
+    };
+    let mut trees: Vec<String> = TREE_IDS.iter().map(|s| s.to_string()).collect();
+    let n_rand = if thorough { 40 } else { 3 };
+    for k in 0..n_rand {
+        trees.push(format!("rand{}.{}", seed, k));
+    }
+    let cwds = ["outside", "inside", "parent"];
+    let pres = ["none", "big", "small"];
+    let mut cases: Vec<FrameCase> = vec![];
+    let mut rot = 0usize;
+    for (ti, t) in trees.iter().enumerate() {
+        for cfg in ["all", "toml"] {
+            // reference first: outside / none / rel
+            for cwd in cwds {
+                let full = thorough || ti < 3;
+                let plist: Vec<&str> = if full {
+                    pres.to_vec()
+                } else if cwd == "outside" {
+                    vec!["none"]
+                } else {
+                    rot += 1;
+                    vec![pres[rot % 3]]
+                };
+                for pre in plist {
+                    let styles: Vec<&str> = if thorough {
+                        if cwd == "parent" {
+                            vec!["rel", "abs", "default"]
+                        } else {
+                            vec!["rel", "abs"]
+                        }
+                    } else if cwd == "parent" {
+                        vec![if (ti + rot) % 2 == 0 { "default" } else { "rel" }]
+                    } else if ti == 1 && pre == "none" {
+                        vec!["rel", "abs"]
+                    } else {
+                        vec!["rel"]
+                    };
+                    for style in styles {
+                        cases.push(FrameCase { tree: t.clone(), cwd: cwd.into(), pre: pre.into(), cfg: cfg.into(), style: style.into() });
+                    }
+                }
+            }
+        }
+    }
+    let mut refs: BTreeMap<(String, String), Vec<u8>> = BTreeMap::new();
+    let mut order_only = 0;
+    let mut runs = 0;
+    for case in &cases {
+        let key = (case.tree.clone(), case.cfg.clone());
+        let is_ref = case.cwd == "outside" && case.pre == "none" && case.style == "rel";
+        let dummy = vec![];
+        let o = if is_ref { eval_frame_case(&bin, case, Some(&dummy)) } else { eval_frame_case(&bin, case, refs.get(&key)) };
+        let mut viols = o.viols;
+        if is_ref {
+            // the dummy reference is not a comparison
+            viols.retain(|v| v.0 != "c18:result-depends-on-cwd");
+            if let Some(f) = &o.first_report {
+                refs.insert(key, f.clone());
+            }
+        }
+        runs += 2;
+        r.evaluations += 1;
+        order_only += o.order_only;
+        if o.first_report.is_some() {
+            r.nontrivial.insert(case.encode());
+        }
+        if r.samples.len() < 6 && r.evaluations % 11 == 1 {
+            r.sample(J::obj(vec![("history", J::s(o.desc.clone())), ("report_bytes", J::Num(o.first_report.as_ref().map(|f| f.len() as i64).unwrap_or(-1))), ("violations", J::Num(viols.len() as i64))]));
+        }
+        for (k, w, e, a) in viols {
+            r.violate(&k, &w, case.replay(), e, a);
+        }
+    }
+    r.extra.push(("binary_runs".into(), J::Num(runs)));
+    r.extra.push(("order_only_differences_attributed_to_C13".into(), J::Num(order_only as i64)));
+    r.rule = "one case = one history (tree, working directory relative to it, previous ./solstat_report.md, configuration): snapshot of the whole scratch area (analysed tree + working directory + bystanders: relative path, type, mode, size, FNV-1a hash, mtime of regular files), run, snapshot, run, snapshot; allowed difference: ./solstat_report.md created or its content replaced. Non-trivial = histories in which a report was produced. Inputs give findings for exactly ONE pattern per category (cfg=all: contracts that only trigger unsafe_erc20_operation/sstore/private_vars_leading_underscore; cfg=toml: one pattern per category selected), so the HashMap section order (C13's defect) cannot vary; should two reports still differ only in line order the difference is counted in order_only_differences_attributed_to_C13, not reported here".into();
+    r.bound = format!("{} trees ({} fixed: single, read-only/mixed/binary files, nested, decoy report files, symlinks, no .sol, no findings; {} seeded random) x cwd in {{outside, analysed directory (--path .), parent}} x previous report in {{none, larger junk, smaller junk}} x {{all patterns, toml}} x path styles (quick: a rotating subset); 2 consecutive runs each", trees.len(), TREE_IDS.len(), n_rand);
+    r.assumptions.push("the snapshot covers the scratch area only (analysed tree, working directory, toml file); writes elsewhere in the file system are not observed".into());
+    r.assumptions.push("run as the current user: read-only modes are recorded and compared but do not stop a privileged user from writing".into());
+    r
+}
+
+pub fn replay_c18(payload: &str) -> (bool, String) {
+    let case = FrameCase::decode(payload);
+    let bin = match solstat_bin(true) {
+        Some(b) => b,
+        None => return (true, "no solstat binary (set VXN_SOLSTAT_BIN)".to_string()),
+    };
+    let o = eval_frame_case(&bin, &case, None);
+    let mut msg = o.desc.clone();
+    for (k, w, e, a) in &o.viols {
+        msg.push_str(&format!("\n{}: {}\n  expected: {}\n  actual:   {}", k, w, e, a));
+    }
+    if o.viols.is_empty() {
+        msg.push_str("\ncontract holds");
+    }
+    (o.viols.is_empty(), msg)
+}
+
+/// Returns Some(exit code) when `cmd` belongs to this module.
+pub fn dispatch(cmd: &str, rest: &[String], tier: &str, seed: u64) -> Option<i32> {
+    match cmd {
+        "c14" => {
+            println!("{}", run_c14(tier, seed).to_json().render());
+            Some(0)
+        }
+        "c18" => {
+            println!("{}", run_c18(tier, seed).to_json().render());
+            Some(0)
+        }
+        "c14-case" | "c18-case" => {
+            if rest.is_empty() {
+                eprintln!("usage: vxn {} <@src:payload|@file:path>", cmd);
+                return Some(2);
+            }
+            let payload = crate::arg_or_file(&rest[0]);
+            let (ok, msg) = if cmd == "c14-case" { replay_c14(&payload) } else { replay_c18(&payload) };
+            println!("{}", msg);
+            Some(if ok { 0 } else { 1 })
+        }
+        _ => None,
+    }
 }
